@@ -72,3 +72,36 @@ func Harness_C23_LengthRoundTrip() {
 	zzsym.Assert(int(used) == len(enc), "decodeLength did not consume exactly the encoded varint")
 	zzsym.Observe("varint", uint64(x), uint64(len(enc)), uint64(val), uint64(used))
 }
+
+// Harness_C23_DecodeFrameArbitrary: (a, single step) WKProto.DecodeFrame — the function
+// Adapter.Decode applies to every suffix in[consumed:] — on arbitrary non-empty input and an
+// arbitrary version byte: no panic, never consumes more than it was given, and exactly one of
+// "frame + progress", "need more / unknown type (nil, 0, nil)" or "error (nil, 0, err)".
+// (Adapter.Decode never passes an empty slice: its loop condition is consumed < len(in).)
+func Harness_C23_DecodeFrameArbitrary() {
+	max := 12
+	if zzsym.Thorough() {
+		max = 20
+	}
+	n := 1 + zzsym.Choice("n", max)
+	data := zzsym.Bytes("in", n)
+	version := zzsym.U8("version")
+	f, used, err := New().DecodeFrame(data, version)
+	zzsym.Assert(used >= 0 && used <= n, "DecodeFrame consumed count outside 0..len(data)")
+	if err != nil {
+		zzsym.Reach("frame-error")
+		zzsym.Assert(f == nil && used == 0, "DecodeFrame reported an error together with a frame or progress")
+		zzsym.Observe("frame-error", uint64(n))
+		return
+	}
+	if f == nil {
+		zzsym.Reach("frame-need-more")
+		zzsym.Assert(used == 0, "DecodeFrame reported progress without a frame")
+		zzsym.Observe("frame-need-more", uint64(n))
+		return
+	}
+	zzsym.Reach("frame-decoded")
+	zzsym.Assert(used >= 1, "DecodeFrame returned a frame without progress")
+	zzsym.Assert(f.GetFrameType() == FramerFromUint8(data[0]).FrameType, "decoded frame type differs from the type nibble of the first byte")
+	zzsym.Observe("frame-decoded", uint64(n), uint64(used), uint64(f.GetFrameType()))
+}
